@@ -9,6 +9,7 @@ import ThriftVerif.Generated.C11Schema
   mar <sidx> <hexbytes> <VL value>   model `write` vs the implementation's Marshal bytes (up to map order)
   unm <sidx> <hexbytes>              model `read` on the implementation's bytes, printed canonically
   cmp <tree>                         compress, then decompress on the plugin side
+  unc <hexbytes>                     UnmarshalRequest: model `read`, then (trailer present) decompress of the AST
   apt <hexdata> <feature>            appendDataTrailer, hasDataTrailerFeature on the result
   has <hexdata> <feature>            hasDataTrailerFeature
   ver <hex>                          supportDataTrailer
@@ -75,17 +76,17 @@ def doUnm (sidx : Nat) (bs : Bytes) : String :=
   | none => "err"
   | some v => "ok " ++ clip (showVal prog (.struct sidx) v)
 
-/-! trees: `N <hexfn> <nkids> kids…` -/
+/-! trees: `N <hexfn> <nkids> kids…` (payloads are units here; `unc` carries real ones) -/
 
 mutual
-partial def parseTree : List String → Option (Tree × List String)
+partial def parseTree : List String → Option (Tree Unit × List String)
   | "N" :: fn :: n :: r => do
       let f ← VL.hexDecode fn
       let k ← n.toNat?
       let (ks, r) ← parseTrees k r
-      some (.node f ks, r)
+      some (.node () f () ks, r)
   | _ => none
-partial def parseTrees : Nat → List String → Option (List Tree × List String)
+partial def parseTrees : Nat → List String → Option (List (Tree Unit) × List String)
   | 0, r => some ([], r)
   | n+1, r => do
       let (t, r) ← parseTree r
@@ -93,17 +94,84 @@ partial def parseTrees : Nat → List String → Option (List Tree × List Strin
       some (t :: ts, r)
 end
 
-partial def showTree : Tree → String
-  | .node fn ks => s!"N {VL.hexEncode fn} {ks.length}" ++ String.join (ks.map fun k => " " ++ showTree k)
+partial def showTree : Tree Unit → String
+  | .node _ fn _ ks => s!"N {VL.hexEncode fn} {ks.length}" ++ String.join (ks.map fun k => " " ++ showTree k)
 
-def doCmp (t : Tree) : String :=
-  let c := (compress t).1
+def doCmp (t : Tree Unit) : String :=
+  let c := (compress () t).1
   let fuel := t.size + 2
   let d := match decompress fuel none c with
     | .ok t' => "ok " ++ showTree t'
     | .panic => "panic"
     | .fuel => "fuel"
   clip (showTree c) ++ " | " ++ clip d
+
+/-! the AST of a decoded request as an include tree with payloads, and back.
+`inc` = the Include record with its Reference blanked, `body` = the Thrift record with its Includes
+blanked (the file name is carried by the node). Positions come from the regenerated schema. -/
+
+def setAt (l : List GoVal) (i : Nat) (v : GoVal) : List GoVal := l.set i v
+
+partial def astToTree (inc : GoVal) (thrift : GoVal) : Option (Tree GoVal) :=
+  match thrift with
+  | .strct fs =>
+    match fs[Generated.C11.thriftFilenamePos]?, fs[Generated.C11.thriftIncludesPos]? with
+    | some (.bytes fn), some incs =>
+      let xs := match incs with | .list xs => some xs | .nil => some [] | _ => none
+      match xs with
+      | none => none
+      | some xs =>
+        let kids := xs.mapM fun x => match x with
+          | .strct is =>
+            match is[Generated.C11.includeReferencePos]? with
+            | some ref => astToTree (.strct (setAt is Generated.C11.includeReferencePos .nil)) ref
+            | none => none
+          | _ => none
+        kids.map fun ks => .node inc fn (.strct (setAt fs Generated.C11.thriftIncludesPos incs)) ks
+    | _, _ => none
+  | _ => none
+
+partial def treeToAst : Tree GoVal → GoVal
+  | .node _ fn body ks =>
+    match body with
+    | .strct fs =>
+      let incs := ks.map fun k => match k.inc with
+        | .strct is => GoVal.strct (setAt is Generated.C11.includeReferencePos (treeToAst k))
+        | other => other
+      let incsV := match fs[Generated.C11.thriftIncludesPos]? with
+        | some .nil => if incs.isEmpty then GoVal.nil else .list incs
+        | _ => .list incs
+      .strct (setAt (setAt fs Generated.C11.thriftFilenamePos (.bytes fn)) Generated.C11.thriftIncludesPos incsV)
+    | other => other
+
+/-- the zero Thrift a reference stub carries besides its file name -/
+def stubBody : GoVal :=
+  match prog.struct? Generated.C11.thriftIdx with
+  | some sd => newX sd
+  | none => .nil
+
+/-- UnmarshalRequest: FastRead, then decompressThriftInclude(req.AST, nil) when the trailer says so -/
+def doUnc (bs : Bytes) : String :=
+  match Gen.Std.read prog Generated.C11.requestIdx bs with
+  | none => "err"
+  | some req =>
+    if !hasDataTrailerFeature bs featureCompressInclude then
+      "ok " ++ clip (showVal prog (.struct Generated.C11.requestIdx) req)
+    else match req with
+      | .strct fs =>
+        match fs[Generated.C11.requestAstPos]? with
+        | some ast =>
+          match astToTree .nil ast with
+          | none => "panic"       -- a nil Reference: the code dereferences it
+          | some t =>
+            match decompress (t.size + 2) none t with
+            | .ok t' =>
+              let req' := GoVal.strct (setAt fs Generated.C11.requestAstPos (treeToAst t'))
+              "ok " ++ clip (showVal prog (.struct Generated.C11.requestIdx) req')
+            | .panic => "panic"
+            | .fuel => "fuel"
+        | none => "bad-request"
+      | _ => "bad-request"
 
 def hexList (l : List Bytes) : String := " ".intercalate (l.map VL.hexEncode)
 
@@ -146,6 +214,10 @@ def handleLine (line : String) : String :=
     match sidx.toNat?, VL.hexDecode hex with
     | some i, some bs => doUnm i bs
     | _, _ => "bad-op"
+  | ["unc", hex] =>
+    match VL.hexDecode hex with
+    | some bs => doUnc bs
+    | none => "bad-op"
   | "cmp" :: rest =>
     match parseTree rest with
     | some (t, []) => doCmp t
